@@ -40,14 +40,14 @@ ASSUMPTIONS = [
     "line statements/comments, '+' on variable tags and '{% raw +%}' are not generated (docs silent)",
 ]
 NSHARDS = {"quick": 16, "thorough": 16}
-BUDGET_S = {"quick": 22, "thorough": 560}
+BUDGET_S = {"quick": 18, "thorough": 520}
 FLOORS = {
-    "quick": {"evaluations": 35000, "distinct": 10000,
-              "counters": {"renders": 35000, "oracle_model": 35000, "oracle_nonws": 35000,
-                           "cases_n1": 10000, "cases_n2": 20000, "cases_n3": 8000,
+    "quick": {"evaluations": 45000, "distinct": 8000,
+              "counters": {"renders": 45000, "oracle_model": 45000, "oracle_nonws": 45000,
+                           "cases_n1": 12000, "cases_n2": 24000, "cases_n3": 5000,
                            "cases_random": 6000,
                            "rule:minus-left": 25000, "rule:minus-right": 25000,
-                           "rule:trim_blocks": 6000, "rule:lstrip_blocks": 5000,
+                           "rule:trim_blocks": 6000, "rule:lstrip_blocks": 4500,
                            "rule:plus-cancels-trim": 3000, "rule:plus-cancels-lstrip": 3000,
                            "raw_body_cases": 8000}},
     "thorough": {"evaluations": 2500000, "distinct": 20000,
@@ -86,55 +86,9 @@ class State:
         return e
 
 
-def _tagname(t):
-    return "start" if t is None else f"{t[0]}[{t[1]}]"
-
-
-def classify(p, got, tb, ls):
-    """Mechanism key for a model/output mismatch: direction + settings + the
-    neighbouring tags (kind, facing modifier) of the first diverging text run +
-    the rules the model applied there."""
-    exp = p.rendered
-    cp = 0
-    n = min(len(exp), len(got))
-    while cp < n and exp[cp] == got[cp]:
-        cp += 1
-    # offsets of each kept run inside the expected output
-    off = 0
-    gi = None
-    outs = []
-    ti = 0
-    for pc in p.pieces:
-        if pc["type"] == "text":
-            g = p.gaps[ti]
-            outs.append((off, off + len(g["kept"]), ti))
-            off += len(g["kept"])
-            ti += 1
-        else:
-            off += pc.get("outlen", 0)
-    for s, e, i in outs:
-        if s <= cp <= e:
-            gi = i
-            break
-    if gi is None:
-        gi = outs[-1][2]
-    g = p.gaps[gi]
-    direction = "under-strip" if len(got) > len(exp) else (
-        "over-strip" if len(got) < len(exp) else "differs")
-    return (f"{direction}:tb={int(tb)},ls={int(ls)}:{_tagname(g['A'])}>{_tagname(g['B'])}"
-            f":model({g['rl'] or '-'},{g['rr'] or '-'})"), gi
-
-
 def check_case(st, skel, tb, ls, keep=False, nl="\n", part="random", shape=None):
     ctx = st.ctx
     p = M.predict(skel, tb, ls, keep, nl)
-    # annotate tag pieces with output length for classify()
-    ti = 1
-    for pc in p.pieces:
-        if pc["type"] == "tag":
-            t = skel[ti]
-            pc["outlen"] = len(t.get("out", "")) if t["k"] == "var" else 0
-            ti += 2
     case = {"skel": skel, "tb": tb, "ls": ls, "keep": keep, "nl": nl, "source": p.source}
     ctx.ev()
     ctx.count("renders")
@@ -174,14 +128,13 @@ def check_case(st, skel, tb, ls, keep=False, nl="\n", part="random", shape=None)
         ok = False
         if st.recorded < MAX_RECORDED:
             st.recorded += 1
-            key, gi = classify(p, got, tb, ls)
-            g = p.gaps[gi]
+            key, g = M.divergence_key(p, p.rendered, got, tb, ls)
             ctx.violation(
                 key,
                 f"source {p.source!r} trim_blocks={tb} lstrip_blocks={ls} keep_trailing_newline="
                 f"{keep} newline_sequence={nl!r}: rendered {got!r}, documented rules give "
                 f"{p.rendered!r} (first divergence in the text run {g['run']!r} between "
-                f"{_tagname(g['A'])} and {_tagname(g['B'])})", case)
+                f"{M.tagname(g['A'], 'start')} and {M.tagname(g['B'], 'end')})", case)
         else:
             ctx.count("violations_not_recorded")
     # oracle 2 (independent of the model): non-whitespace is never removed
@@ -259,11 +212,13 @@ def run(ctx):
     if quick:
         # sampled, in a seed-dependent order so that different seeds see different shapes
         ctx.rng_global("n3order").shuffle(shapes3)
+    done3 = 0
     for seq, mods in shapes3:
         idx += 1
         if not ctx.mine(idx):
             continue
-        if ctx.elapsed() > ctx.budget_s * (0.6 if quick else 0.8):
+        done3 += 1
+        if done3 > 100 and ctx.elapsed() > ctx.budget_s * (0.6 if quick else 0.8):
             complete3 = False
             ctx.count("n3_time_cut")
             break
